@@ -56,7 +56,7 @@ func (c *Ctx) Txn() *txnAnchors {
 	a.doneCommit = p.FnOr("", "oracle", "doneCommit") // optional: Commit may call commitMark.Done itself
 	fn(&a.hasConflict, "", "oracle", "hasConflict")
 	fn(&a.cleanUp, "", "oracle", "cleanUpCommittedTxns")
-	fn(&a.discardStale, "", "levelManager", "discardStaleEntries")
+	a.discardStale = p.FnOr("", "levelManager", "discardStaleEntries") // needed by SNAP.GC only, which says so itself
 	fn(&a.hash, "utils", "", "Hash")
 	fn(&a.keyWithTs, "types", "", "KeyWithTs")
 	fn(&a.parseTs, "types", "", "ParseTs")
@@ -72,6 +72,11 @@ func (c *Ctx) Txn() *txnAnchors {
 	fd(&a.fPending, "", "Txn", "pendingWrites")
 	fd(&a.fDiscarded, "", "Txn", "discarded")
 	fd(&a.fReadOnly, "", "Txn", "readOnly")
+	// the rules read the oracle's answer as (timestamp, conflict): another shape of the answer (a struct, an error) is
+	// not understood and makes them undecided rather than wrong
+	if a.newCommitTs != nil && !resultIs(a.newCommitTs, types.Uint64, types.Bool) {
+		a.missing = append(a.missing, "oracle.newCommitTs with results (uint64, bool)")
+	}
 	a.fDoneRead = p.Field("", "Txn", "doneRead") // optional: any boolean flag of Txn may make doneRead idempotent
 	fd(&a.fCtTs, "", "committedTxn", "ts")
 	fd(&a.fCtFp, "", "committedTxn", "writesFp")
@@ -454,7 +459,7 @@ func runSnapCommit(c *Ctx, r *RuleRun) {
 		if !isCall {
 			return
 		}
-		arg := call.Call.Args[1]
+		arg := cellValue(call.Call.Args[1]) // (a named result `ts` lives in a cell when the function defers)
 		okv := isLoadOfField(arg, a.fNextTs)
 		r.Check(okv, fn, "commitMark.Begin(ts)", p.Pos(instrPos(call)), "ts = nextTs (value before the increment)", "commitMark.Begin is not called with the allocated timestamp")
 		_, held := la.Must[ins]["oracle.Mutex"]
@@ -480,7 +485,7 @@ func runSnapCommit(c *Ctx, r *RuleRun) {
 	}
 	// committedTxn record: ts field = ts, writesFp = txn.writesFp
 	for _, st := range storesToField(f, a.fCtTs) {
-		r.Check(st.Val == ts, fn, "committedTxn.ts", p.Pos(instrPos(st)), "recorded with ts", "the committed transaction is recorded with a timestamp other than the one allocated")
+		r.Check(cellValue(st.Val) == ts, fn, "committedTxn.ts", p.Pos(instrPos(st)), "recorded with ts", "the committed transaction is recorded with a timestamp other than the one allocated")
 	}
 	for _, st := range storesToField(f, a.fCtFp) {
 		r.Check(p.through(st.Val, func(v ssa.Value) bool { return isLoadOfField(v, a.fWritesFp) }), fn, "committedTxn.writesFp", p.Pos(instrPos(st)), "recorded with the transaction's write fingerprints", "the committed transaction is not recorded with txn.writesFp")
@@ -490,8 +495,8 @@ func runSnapCommit(c *Ctx, r *RuleRun) {
 		r.Check(held, fn, "committedTxns store under oracle.Mutex", p.Pos(instrPos(st)), "under oracle.Mutex", "committedTxns is stored without oracle.Mutex")
 	}
 	eachInstr(f, func(ins ssa.Instruction) {
-		if ret, ok := ins.(*ssa.Return); ok && (f != top || isConstBool(retOperand(ret, 1), false)) {
-			r.Check(retOperand(ret, 0) == ts, fn, "returns ts", p.Pos(instrPos(ret)), "returns the allocated timestamp", "newCommitTs returns a timestamp other than the one it began on commitMark and recorded")
+		if ret, ok := ins.(*ssa.Return); ok && (f != top || retBool(ret, 1, false)) {
+			r.Check(cellValue(retOperand(ret, 0)) == ts, fn, "returns ts", p.Pos(instrPos(ret)), "returns the allocated timestamp", "newCommitTs returns a timestamp other than the one it began on commitMark and recorded")
 		}
 	})
 	if f != top {
@@ -512,7 +517,7 @@ func runSnapCommit(c *Ctx, r *RuleRun) {
 			return false
 		}
 		eachInstr(top, func(ins ssa.Instruction) {
-			if ret, ok := ins.(*ssa.Return); ok && isConstBool(retOperand(ret, 1), false) {
+			if ret, ok := ins.(*ssa.Return); ok && retBool(ret, 1, false) {
 				r.Check(fromHelper(retOperand(ret, 0)), p.FnName(top), "returns ts", p.Pos(instrPos(ret)), "returns what the allocating helper returned", "newCommitTs returns a timestamp other than the one it began on commitMark and recorded")
 			}
 		})
@@ -606,6 +611,10 @@ func runSnapGC(c *Ctx, r *RuleRun) {
 	}
 	p := c.P
 	f := a.discardStale
+	if f == nil {
+		r.Undecided("-", "anchors", "", "anchors not found: levelManager.discardStaleEntries")
+		return
+	}
 	fn := p.FnName(f)
 	readDone := func(v ssa.Value) bool {
 		call, ok := v.(*ssa.Call)
@@ -617,8 +626,25 @@ func runSnapGC(c *Ctx, r *RuleRun) {
 		}
 		return isLoadOfField(v, a.fNextTs)
 	}
+	// the threshold may be handed in: a parameter for which every call site passes a value read from readMark alone
+	lowParam := func(x ssa.Value) bool {
+		pr, ok := x.(*ssa.Parameter)
+		if !ok || pr.Parent() != f {
+			return false
+		}
+		args := p.callerArgs(pr)
+		if len(args) == 0 {
+			return false
+		}
+		for _, arg := range args {
+			if !p.dependsOn(arg, readDone) || p.dependsOn(arg, otherSrc) {
+				return false
+			}
+		}
+		return true
+	}
 	isLow := func(v ssa.Value) bool {
-		return p.dependsOn(v, readDone) && !p.dependsOn(v, otherSrc)
+		return p.dependsOn(v, func(x ssa.Value) bool { return readDone(x) || lowParam(x) }) && !p.dependsOn(v, otherSrc)
 	}
 	entryTs := func(v ssa.Value) bool {
 		return p.dependsOn(v, func(x ssa.Value) bool {
@@ -1118,7 +1144,7 @@ func runConfOrder(c *Ctx, r *RuleRun) {
 		if !ok {
 			return
 		}
-		conflictRet := isConstBool(retOperand(ret, 1), true)
+		conflictRet := retBool(ret, 1, true)
 		if conflictRet {
 			var w []ssa.Instruction
 			if len(effects) > 0 {
@@ -1127,7 +1153,11 @@ func runConfOrder(c *Ctx, r *RuleRun) {
 			}
 			r.Check(w == nil, fn, "refusal is effect-free", p.Pos(instrPos(ret)), "no timestamp, record or commitMark.Begin on the refusal path",
 				"a refused transaction has already advanced nextTs, recorded itself or begun on commitMark: a Begin without Done blocks every later reader")
-			guard := boolFactIs(ret, func(v ssa.Value) bool { return v == ssa.Value(hc[0]) }, true)
+			hcSame := map[ssa.Value]bool{}
+			for _, x := range cellAliases(hc[0]) {
+				hcSame[x] = true
+			}
+			guard := boolFactIs(ret, func(v ssa.Value) bool { return hcSame[v] }, true)
 			r.Check(guard, fn, "refusal iff hasConflict", p.Pos(instrPos(ret)), "returned on the hasConflict()==true branch", "the refusal is not returned on the hasConflict()==true branch")
 		} else {
 			isBegin := func(i ssa.Instruction) bool { return !steps[i] && mustBegin.Instr(i) }
@@ -1726,4 +1756,27 @@ func runTraceMisuse(c *Ctx, r *RuleRun) {
 		})
 		r.Check(found, vfn, "answer ErrDBClosed", p.Pos(vf.Pos()), "returned when State() == StateClosed", "ErrDBClosed is not returned for a closed DB")
 	}
+}
+
+// retBool: the i-th result of ret is the boolean want - the constant, or (named results, `return` after
+// `if conflict = check(); conflict {`) a value that the dominating branches have established to be want.
+func retBool(ret *ssa.Return, i int, want bool) bool {
+	if i >= len(ret.Results) {
+		return false
+	}
+	v := retOperand(ret, i)
+	if isConstBool(v, want) {
+		return true
+	}
+	if _, isConst := v.(*ssa.Const); isConst {
+		return false
+	}
+	same := map[ssa.Value]bool{}
+	for _, x := range cellAliases(v) {
+		same[x] = true
+	}
+	for _, x := range cellAliases(ret.Results[i]) {
+		same[x] = true
+	}
+	return boolFactIs(ret, func(x ssa.Value) bool { return same[x] }, want)
 }
